@@ -145,6 +145,18 @@ def run_check(modname, tier='quick', seed=0):
     extra = []
     if hasattr(mod, 'extra_obligations'):
         extra = mod.extra_obligations(tier)
+    # ---- engine self-test (known verdicts + differential test against CPython): a failing engine decides nothing
+    selftest = None
+    if os.environ.get('PYVC_SELFTEST', '1') != '0' and (jobs or tier == 'thorough'):
+        import subprocess
+        p = subprocess.run([sys.executable, '-W', 'ignore', '-m', 'pyvc.selftest.run'], cwd=ROOT, capture_output=True, text=True,
+                           env=dict(os.environ, SELFTEST_N='10' if tier != 'thorough' else '60'))
+        selftest = dict(rc=p.returncode, summary=(p.stdout.strip().splitlines() or ['(no output)'])[0],
+                        problems=[l.strip() for l in p.stdout.splitlines() if 'SELFTEST-PROBLEM' in l][:10])
+        if p.returncode != 0:
+            print('ENGINE SELF-TEST FAILED: the checker is broken, nothing it reports is meaningful')
+            print(p.stdout[-2000:] + p.stderr[-1000:])
+            return 3
     # ---- bounded stand-in
     bres = None
     if hasattr(mod, 'bounded'):
@@ -259,7 +271,7 @@ def run_check(modname, tier='quick', seed=0):
         undecided=undecided,
         vacuity=dict(pre_sat=[(r['function'], r.get('pre_sat')) for r in results],
                      paths_reaching_post=sum(r.get('paths_reaching_post') or 0 for r in results),
-                     canaries=canaries),
+                     canaries=canaries, engine_selftest=selftest),
         dropped_by_extraction=DROPPED + list(getattr(mod, 'DROPPED', [])),
         python_semantics_assumed=PY_SEMANTICS,
         not_proved=list(getattr(mod, 'NOT_PROVED', [])),
